@@ -539,12 +539,86 @@ fn law_jobs(seed: u64) -> Vec<Job> {
         .collect()
 }
 
+/// Statically typed chains in which a member is itself a weighted chain that was given a weight of its own
+/// (`Weighted::new(sub_chain, w)` / `.with_item_and_weight(sub_chain, w)`): the wrapper's weight decides how
+/// often the sub-chain is used, the sub-chain's own weights how its members share that. Real types all the way
+/// down (no harness enum between the levels).
+fn rewrapped_jobs(seed: u64) -> Vec<Job> {
+    let mut jobs = vec![];
+    // (a, b) weights inside the sub-chain, w its weight as a member, c the weight of the plain member beside it
+    let sets: Vec<[u32; 4]> = vec![[1, 1, 6, 2], [3, 3, 2, 2], [1, 3, 4, 4], [5, 1, 1, 3], [2, 7, 9, 1], [1, 1, 2, 2], [4, 1, 40, 3], [(splitmix(seed) % 9 + 1) as u32, (splitmix(seed ^ 1) % 9 + 1) as u32, (splitmix(seed ^ 2) % 20 + 1) as u32, (splitmix(seed ^ 3) % 9 + 1) as u32]];
+    for (k, [a, b, w, c]) in sets.into_iter().enumerate() {
+        for form in 0..3u8 {
+            let name = format!(
+                "{} with sub = Weighted(m0, {a}).with(m1, {b})",
+                match form {
+                    0 => format!("Weighted::new(sub, {w}).with_item_and_weight(m2, {c})"),
+                    1 => format!("Weighted::new(m2, {c}).with_item_and_weight(sub, {w})"),
+                    _ => format!("Weighted::new(sub, {w}).with_item_and_weight(sub', {c}) (sub' = Weighted(m2, {b}).with(m3, {a}))"),
+                }
+            );
+            let _ = k;
+            jobs.push(Job {
+                name: name.clone(),
+                run: Box::new(move |trials, seed| {
+                    let trials = trials / 2;
+                    let mut counters = Counters::new();
+                    let mut m = |i: usize| build_with::<R>(&Spec::Marker(i), &mut counters).unwrap_or(Sel::Best);
+                    let (m0, m1, m2, m3) = (m(0), m(1), m(2), m(3));
+                    let pop = population::<R>(&vec![vec![1]; 8], |r| Score(r.iter().sum()));
+                    let mut rng = StdRng::seed_from_u64(seed);
+                    let mut picks = [0u64; 4];
+                    let overflow = |_| Fail::new("weighted/spurious-overflow", format!("{name}: construction rejected"));
+                    let sub = Weighted::new(m0, a).with_item_and_weight(m1, b).map_err(overflow)?;
+                    macro_rules! sample {
+                        ($chain:expr) => {{
+                            let chain = $chain.map_err(overflow)?;
+                            for _ in 0..trials {
+                                match one_draw(&chain, |_| false, &counters, &pop, &mut rng)? {
+                                    Outcome::Picked(i) => picks[i] += 1,
+                                    other => {
+                                        let what = match other {
+                                            Outcome::OtherError(e) => e,
+                                            Outcome::ZeroWeight => "zero-weight error".to_string(),
+                                            _ => "no member used".to_string(),
+                                        };
+                                        return Err(Fail::new("weighted/unexpected-error", format!("{name}: {what}")));
+                                    }
+                                }
+                            }
+                        }};
+                    }
+                    let (wf, cf, af, bf) = (f64::from(w), f64::from(c), f64::from(a), f64::from(b));
+                    let law: [f64; 4] = match form {
+                        0 => {
+                            sample!(Weighted::new(sub, w).with_item_and_weight(m2, c));
+                            [wf / (wf + cf) * af / (af + bf), wf / (wf + cf) * bf / (af + bf), cf / (wf + cf), 0.0]
+                        }
+                        1 => {
+                            sample!(Weighted::new(m2, c).with_item_and_weight(sub, w));
+                            [wf / (wf + cf) * af / (af + bf), wf / (wf + cf) * bf / (af + bf), cf / (wf + cf), 0.0]
+                        }
+                        _ => {
+                            let sub2 = Weighted::new(m2, b).with_item_and_weight(m3, a).map_err(overflow)?;
+                            sample!(Weighted::new(sub, w).with_item_and_weight(sub2, c));
+                            [wf / (wf + cf) * af / (af + bf), wf / (wf + cf) * bf / (af + bf), cf / (wf + cf) * bf / (af + bf), cf / (wf + cf) * af / (af + bf)]
+                        }
+                    };
+                    Ok((0..4).map(|i| Stat::new("weighted/not-proportional", format!("{name}: member {i} used"), picks[i], trials, law[i])).collect())
+                }),
+            });
+        }
+    }
+    jobs
+}
+
 pub fn run(ctx: &mut Ctx) {
-    ctx.rule = "marker selectors (member i returns individual i and counts its calls) combined by real WeightedPair trees (all binary shapes up to 5 leaves for the laws, generated shapes up to 8 leaves for the invariants), real with_item_and_weight chains of 2..5 members and DynWeighted lists (also lists that are used for selections while they are still being extended with with_selector); weights from {0,1,2..,2^31,u32::MAX-1,u32::MAX} u random, for the dynamic lists also weights of 2^32..2^61. Invariants per selection: exactly one member used, never a weight-0 member, the returned individual is the chosen member's; all-zero => zero-weight error with no member used (also when the population is empty, where otherwise exactly one positive-weight member is consulted and its error reported); construction fails iff a partial sum exceeds u32::MAX (also after an earlier overflow). Laws: member frequencies = w_i / sum(w). non-trivial = >= 3 members, >= 2 distinct positive weights, nesting depth >= 2 or a list used while being built (invariants); statistics with 0 < p < 1 (laws)".into();
+    ctx.rule = "marker selectors (member i returns individual i and counts its calls) combined by real WeightedPair trees (all binary shapes up to 5 leaves for the laws, generated shapes up to 8 leaves for the invariants), real with_item_and_weight chains of 2..5 members and DynWeighted lists (also lists that are used for selections while they are still being extended with with_selector); weights from {0,1,2..,2^31,u32::MAX-1,u32::MAX} u random, for the dynamic lists also weights of 2^32..2^61. Invariants per selection: exactly one member used, never a weight-0 member, the returned individual is the chosen member's; all-zero => zero-weight error with no member used (also when the population is empty, where otherwise exactly one positive-weight member is consulted and its error reported); construction fails iff a partial sum exceeds u32::MAX (also after an earlier overflow). Laws: member frequencies = w_i / sum(w); for statically typed chains whose members are themselves chains wrapped with a weight of their own, the product of the shares along the path. non-trivial = >= 3 members, >= 2 distinct positive weights, nesting depth >= 2 or a list used while being built (invariants); statistics with 0 < p < 1 (laws)".into();
     ctx.assumptions.push("the payload of WeightSumOverflow is not compared".into());
     let (n, trials) = ctx.tier.pick((300_000u32, 400_000u64), (5_000_000, 5_000_000));
     ctx.run_prop("invariants", n, strategy, oracle);
     run_jobs(ctx, "weight_laws", law_jobs(ctx.seed), trials);
+    run_jobs(ctx, "weight_laws_rewrapped_chains", rewrapped_jobs(ctx.seed), trials);
     // coverage-guided search over the same strategies and oracles (thorough tier; see ptfuzz.rs)
     crate::ptfuzz::thorough(ctx, &[("c13", 16, 1_500_000)]);
 }
